@@ -299,7 +299,7 @@ func init() {
 		ID:        "C11",
 		Level:     "exploration",
 		NeedsTerm: true,
-		Rule: "15 exit paths (accept-line, accept-and-hold, multi-line accept, operate-and-get-next, C-c plain / in an open completion menu / in incremental search, C-d on an empty line, insert-comment, edit-and-execute-command with a succeeding / failing / missing editor, a user-registered command that panics, stdin EOF, stdin EIO) x {emacs, vi-insert, vi-command, visual} x 7 buffer shapes (empty, short, wrapped, exactly filling the row, two lines, cursor in the middle, menu/hint) x 6 initial termios variants (cooked, echo off, ixon off, odd VMIN/VTIME, an application's cbreak mode with ICANON and ECHO off, a raw-like mode), one case in three after an earlier call on the same Shell that returned normally (accept / C-c / C-d) on a cooked terminal; monitors after the call returned or the panic unwound: TCGETS struct equality with the value before the call, last DECSCUSR parameter == 0, emulator cursor in column 0 on a blank row below every row that holds text. " +
+		Rule: "left from 9 editor states (emacs, Vi insert / command / visual / replace, an operator d c y 2d g~ 3c pending, a count, a register, an Emacs digit argument pending); 15 exit paths (accept-line, accept-and-hold, multi-line accept, operate-and-get-next, C-c plain / in an open completion menu / in incremental search, C-d on an empty line, insert-comment, edit-and-execute-command with a succeeding / failing / missing editor, a user-registered command that panics, stdin EOF, stdin EIO) x {emacs, vi-insert, vi-command, visual} x 7 buffer shapes (empty, short, wrapped, exactly filling the row, two lines, cursor in the middle, menu/hint) x 6 initial termios variants (cooked, echo off, ixon off, odd VMIN/VTIME, an application's cbreak mode with ICANON and ECHO off, a raw-like mode), one case in three after an earlier call on the same Shell that returned normally (accept / C-c / C-d) on a cooked terminal; monitors after the call returned or the panic unwound: TCGETS struct equality with the value before the call, last DECSCUSR parameter == 0, emulator cursor in column 0 on a blank row below every row that holds text. " +
 			"distinct non-trivial = distinct (exit path, mode, buffer shape, termios variant, first or later call) tuples; exit paths are enumerated round-robin so every tier covers all 15",
 		Assumptions: []string{"prompt-transient off", "buffers are plain ASCII (wide characters at the margin and wrapped multi-line buffers are C04's known classes)"},
 		N: func(tier string) int {
